@@ -37,7 +37,7 @@ CHECKS = {
             "DESIGN.md §4 C09"),
     "C13": ("exploration", E2,
             "bounded-exhaustive enumeration of values, value trees, field-checker subsets and compound-key lists; write in one committed transaction, read back in a later one",
-            "Every typed setter/getter pair over boundary values (integer extremes, signed zero, infinities, NaN, denormals, NUL-containing and 64 KiB strings, times in several zones incl. year 1/9999), all string lists up to 3 over {\"\",a,b,dup}, every such list written over every list of length <= 2 (committed before or earlier in the same transaction, both list setters), ALL value trees up to depth 2 (thorough: 3) over 8 leaf kinds with up to 2 children (nulls, empty maps/lists inside containers), all 16 field-checker subsets (untouched fields byte-identical), all 32 selections under a MappedFieldChecker, and all compound-key lists up to 3 over 8 element shapes with an exhaustive collision table. Every PersistContext setter under all 1024 selections of a 10-field checker (and none), required-but-empty strings refused without a write.",
+            "Every typed setter/getter pair over boundary values (integer extremes, signed zero, infinities, NaN, denormals, NUL-containing and 64 KiB strings, times in several zones incl. year 1/9999), all string lists up to 3 over {\"\",a,b,dup}, every such list written over every list of length <= 2 (committed before or earlier in the same transaction, both list setters), ALL value trees up to depth 2 (thorough: 3) over 8 leaf kinds with up to 2 children (nulls, empty maps/lists inside containers), all 16 field-checker subsets (untouched fields byte-identical), all 32 selections under a MappedFieldChecker, and all compound-key lists up to 3 over 8 element shapes with an exhaustive collision table. Every PersistContext setter under all 1024 selections of a 10-field checker (and none), required-but-empty strings refused without a write. The base values of an extended entity (created-at, updated-at, tags, system flag) under Migrate: 4x4 instants x 4 tag maps x flag, then three updates.",
             "The reserved list-size key and empty map keys (rejected loudly by bbolt) are outside the alphabet.",
             "DESIGN.md §4 C13"),
     "C14": ("exploration", E2,
@@ -107,7 +107,7 @@ CHECKS = {
             "DESIGN.md §4 C15"),
     "C16": ("model_checking", E1,
             "explicit-state BFS to closure over {create,update,patch,delete} x {system,ordinary context} x flag, 1-2 operations per transaction",
-            "All reachable states and all one- and two-operation transactions mixing system and ordinary contexts are enumerated (updates as full update, field-restricted patch, and with the entity's Migrate mark set); allowed/refused, unchanged-after-refusal, immutability of the flag and read-back are compared with the model.",
+            "All reachable states and all one- and two-operation transactions mixing system and ordinary contexts are enumerated (updates as full update, field-restricted patch, and with the entity's Migrate mark set; through the parent, a plain child and an extended child store); the system / ordinary context is also handed to Db.Update / Db.Batch by the caller; allowed/refused, unchanged-after-refusal, immutability of the flag and read-back are compared with the model.",
             "2 ids, 2 names (a unique index supplies a second rejection cause).",
             "DESIGN.md §4 C16"),
 }
